@@ -39,11 +39,15 @@ def strategy(tier):
       (1, st.tuples(st.just('down'), st.integers(0, 8), st.booleans()).map(list)),
       (1, st.tuples(st.just('up'), st.integers(0, 8)).map(list)),
       (2, st.tuples(st.just('advance'), st.sampled_from([1, 2, 5, 10, 30])).map(list)),
+      # long enough for a jitter round of the aperture (when the configuration has one) to come and go
+      (2, st.tuples(st.just('advance'), st.sampled_from([1200, 2600])).map(list)),
       (2, st.tuples(st.just('flap_pending'), st.integers(0, 3)).map(list)),
   ]
   cfg = lb_config().flatmap(lambda c: st.tuples(st.sampled_from([0, 0, 3, 10, 20]),
                                                 st.sampled_from([None, None, None, ['error', 1], ['timeout', 1], ['timeout', 2]])).map(
-      lambda t: dict(c, getservers_delay_ms=t[0], provider_fail=t[1])))
+      lambda t: dict(c, getservers_delay_ms=t[0], provider_fail=t[1]))).flatmap(
+      # half of the aperture configurations re-draw one member every 1-2 s (jitter)
+      lambda c: st.sampled_from([0, 1]).map(lambda j: dict(c, aperture=dict(c['aperture'], jitter_min=j, jitter_max=2 * j))))
   return st.fixed_dictionaries({'config': cfg, 'ops': sized_list(weighted(*pairs), 0, 70 if tier == 'quick' else 180)})
 
 
